@@ -154,6 +154,26 @@ def affine_cases(draw):
     }
 
 
+def affine_grid(tier):
+    """Every mode x D x spacing form x dtype once, with fixed generic coefficients and N = 2."""
+    forms = ["scalar", "vector", "tuple", "vector_tensor", "1xD", "Nx1", "NxD"]
+    for mode, D, form, dtype in itertools.product(MODES + [None], (2, 3), forms, ("float32", "float64")):
+        N = 2
+        base = [0.5, 1.25, 2.0][:D]
+        if form == "scalar":
+            sp = [[0.75] * D] * N
+        elif form == "Nx1":
+            sp = [[0.5] * D, [1.5] * D]
+        elif form == "NxD":
+            sp = [base, [3.0, 0.4, 0.8][:D]]
+        else:
+            sp = [base] * N
+        coef = lambda k, m: [round(((7 * i + 3 * k) % 11 - 5) * 0.17, 2) for i in range(m)]  # noqa: E731
+        yield {"D": D, "N": N, "shape": [5, 7, 6][:D], "dtype": dtype, "mode": mode, "spform": form, "sp": [list(x) for x in sp],
+               "A": [coef(1 + n, D * D) for n in range(N)], "a": [coef(3 + n, D) for n in range(N)],
+               "B": [coef(5 + n, D * D) for n in range(N)], "b": [coef(7 + n, D) for n in range(N)]}
+
+
 def run_affine(case):
     from deepali.core import functional as U
 
@@ -344,7 +364,7 @@ def run_quadratic(case):
             for n in range(N):  # same rounding-error budget as above for each of the two spellings, whole domain
                 bnd = 2 * K * (4 * eps * maxu[n, c] / (sp[n][i] * sp[n][j]) + 2 * EPS32 * abs(2 * Qs[n][c, i, j]))
                 worst = max(worst, check_close(other[n], val[n], bnd, "mixed_symmetry", f"{key} vs transposed spelling, item {n}"))
-    nt = all(np.abs(Q).min() > 0.004 for Q in Qs) and min(shape) >= 6
+    nt = all(np.abs(Q).min() > 0.004 for Q in Qs) and max(shape) >= 6
     return {"ratio": worst, "nontrivial": nt,
             "labels": [f"D={D}", f"N={N}", f"mode={mode}", f"sp={case['spform']}", case["dtype"], f"request={case['request']}",
                        "aniso" if aniso(sp) else "iso", "per_item_spacing" if per_item(sp) else "shared_spacing"]}
@@ -641,20 +661,22 @@ FACETS = [
     Facet("affine_first_order", run_affine, strategy=affine_cases,
           rule="affine u=Ax+a, v=Bx+b at x=index*spacing; D, shape 5..12, N 1..3, dtype, 6 FD modes + default, 7 spacing forms; "
                "flow_derivatives/jacobian_matrix/jacobian_dict/jacobian_det(+-identity)/divergence/curl/lie_bracket vs analytic; "
+               "plus the complete grid mode x D x spacing form x dtype (196 fixed cases); "
                "non-trivial = every item has a non-zero off-diagonal of A and the spacing is anisotropic, per-item or isotropic-form",
-          quick=1000, thorough=12000, shards=16, quick_shards=4),
+          quick=1000, thorough=24000, shards=16, quick_shards=4,
+          enumerate=affine_grid, exhaustive_tiers=("quick", "thorough")),
     Facet("quadratic_second_order", run_quadratic, strategy=quadratic_cases,
           rule="quadratic fields, all order-2 keys (order=2 / explicit list / unmixed only), values 2Q two samples inside the faces, "
-               "both spellings of mixed keys equal; non-trivial = all |Q| entries > 0.004 and min shape >= 6",
-          quick=700, thorough=8000, shards=16, quick_shards=2),
+               "both spellings of mixed keys equal; non-trivial = all |Q| entries > 0.004 and max shape >= 6",
+          quick=700, thorough=16000, shards=16, quick_shards=2),
     Facet("key_subsets", run_subset, strategy=subset_cases,
           rule="hash-noise fields, random key requests (1-6 entries: explicit, multi-channel, shorthand, duplicates, str or list, "
                "optional order filter) in every mode incl. bspline vs the complete order-1 + order-2 request and vs "
                "spatial_derivatives on all channels; non-trivial = at least two keys returned",
-          quick=900, thorough=10000, shards=16, quick_shards=2),
+          quick=900, thorough=20000, shards=16, quick_shards=2),
     Facet("bspline_mode", run_bspline, strategy=bspline_cases,
           rule="coefficient lattices (noise / affine / both), shapes 4..9, stride None/int/per-axis list in 1..4, all spacing forms; "
                "requested derivatives of order <= 2, Jacobian, determinant, divergence, curl vs tensor-product reference spline; "
                "non-trivial = noise content and (stride > 1 or anisotropic spacing)",
-          quick=600, thorough=8000, shards=16, quick_shards=2),
+          quick=600, thorough=16000, shards=16, quick_shards=2),
 ]
